@@ -229,7 +229,7 @@ func init() {
 		check: func(run *vf.Run, res *caseResult) {
 			vs := checkC01(res.rt, run)
 			for _, v := range vs {
-				v = pairingConflict("C01", res.rt.c, v)
+				v = pairingConflict(run, "C01", res.rt.c, v)
 				v = recreatedPartition("C01", res.rt, v)
 				run.Violate(v.key, v.desc, replayOf(res, nil))
 			}
@@ -256,7 +256,7 @@ func init() {
 		check: func(run *vf.Run, res *caseResult) {
 			vs := checkC02(res.rt, run)
 			for _, v := range vs {
-				v = pairingConflict("C02", res.rt.c, v)
+				v = pairingConflict(run, "C02", res.rt.c, v)
 				v = recreatedPartition("C02", res.rt, v)
 				run.Violate(v.key, v.desc, replayOf(res, nil))
 			}
@@ -310,10 +310,11 @@ func conflictingPairing(c *Case) bool {
 
 // pairingConflict re-keys a violation observed in a case with a conflicting channel pairing under unequal channel
 // counts (one recorded finding for that input shape; everything else keeps its own key).
-func pairingConflict(prop string, c *Case, v vio) vio {
+func pairingConflict(run *vf.Run, prop string, c *Case, v vio) vio {
 	if !conflictingPairing(c) {
 		return v
 	}
+	run.Count("conflicting_pairing_inner_"+strings.TrimPrefix(v.key, prop+"/"), 1)
 	return vio{key: prop + "/conflicting-channel-pairing-under-unequal-channel-counts", desc: fmt.Sprintf("[%s, %d source vs %d downstream channels] %s", v.key, c.SrcChanNum, c.DstChanNum, v.desc)}
 }
 
